@@ -41,7 +41,9 @@ var hookSpecs = []hookSpec{
 	{"internal/app/util.go", "", []string{"getNodeStatesInParallel", "findMostRecentNodeAndDetectSplitbrain"}},
 	{"internal/app/replication.go", "App", []string{"optimizationPhase"}},
 	{"internal/app/timing_tracker.go", "App", []string{"logTiming"}},
-	{"internal/app/app.go", "App", []string{"getLocalDaemonState", "updateActiveNodes", "performSwitchover"}},
+	{"internal/app/app.go", "App", []string{"getLocalDaemonState", "updateActiveNodes", "performSwitchover", "baseContext"}},
+	{"internal/app/cli_util.go", "App", []string{"cliInitApp"}},
+	{"internal/util/user.go", "", []string{"GuessWhoRunning"}},
 	{"internal/app/node_state/node_state.go", "DiskState", []string{"Usage"}},
 	{"internal/mysql/gtids/wrapper.go", "", []string{"ParseGtidSet", "GTIDDiff"}},
 	{"internal/mysql/gtids/utils.go", "", []string{"IsSplitBrained"}},
